@@ -84,7 +84,18 @@ func (e *establishedLink) acceptStreamPump(ctx context.Context) {
 	defer func() {
 		// close the directive instance early if there are no non-weak refs.
 		// this skips the hold-open (unref dispose dur) timer.
-		_ = e.di.CloseIfUnreferenced(false)
+		// the directive is shared by all links with the peer: keep it if there is another.
+		var hasOtherLink bool
+		ctrl.bcast.HoldLock(func(broadcast func(), getWaitCh func() <-chan struct{}) {
+			for _, plnk := range ctrl.linksByPeerID[lnk.GetRemotePeer()] {
+				if plnk != e {
+					hasOtherLink = true
+				}
+			}
+		})
+		if !hasOtherLink {
+			_ = e.di.CloseIfUnreferenced(false)
+		}
 		e.cancel()
 		lnk.Close()
 	}()
